@@ -235,3 +235,183 @@ def run_C12(ctx):
         vlib.LIGHT_JVM = False
         add_m3(ctx, "textform", "unicode", "text", 1, params={"sweep": "0-0x10ffff", "step": "1"}, shards=vlib.MAX_SHARDS)
     return vlib.finish(ctx, confirm_all)
+
+
+# ====================================================================== C18 scanner / streaming decoder
+
+def describe_scan(ev, obs, entry):
+    doc = cps(ev.get("doc"))
+    h = hashlib.sha1(doc.encode("utf-8", "replace")).hexdigest()[:10]
+    o = obs if isinstance(obs, dict) else {}
+    parts = []
+    for w in entry.get("why") or []:
+        what = w.get("what")
+        if what == "schedule":
+            i = w["idx"] - 1
+            sch = (ev.get("schedules") or [])[i] if i < len(ev.get("schedules") or []) else {}
+            run = (o.get("runs") or [])[i] if i < len(o.get("runs") or []) else {}
+            if run.get("fault"):
+                parts.append("reader failing after %s bytes (read sizes %s): tokenizer %s, streaming decoder %s -- a result instead of an error" % (
+                    sch.get("failAt"), sch.get("sizes"), "returned tokens" if run.get("tokOk") else "failed", "returned policies" if run.get("decOk") else "failed"))
+            else:
+                tk, dc = (run or {}).get("tok") or {}, (run or {}).get("dec") or {}
+                parts.append("read sizes %s eofWithData=%s: tokenizer %s, decoder %s -- differs from the whole-slice result (tokenizer %s, %s policies)" % (
+                    sch.get("sizes"), sch.get("eofWithData"),
+                    ("ok, %d tokens" % len(tk.get("toks") or [])) if tk.get("ok") else "error `%s`" % tk.get("err"),
+                    ("ok, %s policies" % dc.get("n")) if dc.get("ok") else "error `%s`" % dc.get("err"),
+                    ("ok, %d tokens" % len((o.get("slice") or {}).get("toks") or [])) if (o.get("slice") or {}).get("ok") else "error",
+                    (o.get("pols") or {}).get("n")))
+        elif what == "token":
+            k = w["idx"] - 1
+            got = ((o.get("slice") or {}).get("toks") or [])
+            g = got[k] if k < len(got) else None
+            e = w.get("exp") or {}
+            parts.append("token %d: observed %s, reference %s" % (
+                w["idx"], ("%s `%s` at offset %s line %s column %s" % (g["t"], cps(g["text"]), g["off"], g["line"], g["col"])) if g else "none",
+                ("%s `%s` at offset %s line %s column %s" % (e.get("t"), doc[e["a"] - 1:e["b"]], e.get("off"), e.get("line"), e.get("col"))) if "a" in e else "none"))
+        elif what in ("policy position", "diagnostic position"):
+            parts.append("%s of policy %s: observed %s, first token per reference %s" % (
+                what, w.get("idx"), json.dumps(((o.get("pols") or {}).get("pos") or [None] * 999)[w["idx"] - 1]) if what == "policy position" else
+                json.dumps([d for d in (o.get("diag") or []) if d.get("idx") == w.get("idx")][:1]), json.dumps({k: (w.get("exp") or {}).get(k) for k in ("off", "line", "col")})))
+        else:
+            parts.append(str(what) + (" (expected %s)" % w.get("exp") if "exp" in w else ""))
+    return "scan document %s (%d bytes%s) `%s` => %s" % (h, len(doc.encode("utf-8", "replace")), "" if ev.get("valid") else ", damaged",
+                                                      doc[:120].replace("\n", "\\n"), "; ".join(parts))
+
+
+def shrink_scan(ev, entry=None):
+    out = []
+    for w in (entry or {}).get("why") or []:
+        if w.get("what") == "schedule":
+            i = w["idx"] - 1
+            out.append(dict(ev, schedules=[ev["schedules"][i]]))
+    return out
+
+
+KINDS["scan"] = dict(module="Trace_Scanner", shrink=shrink_scan, describe=describe_scan)
+
+
+def describe_scanreplay(ev, obs, entry):
+    doc = bytes(ev.get("doc") or []).decode("utf-8", "replace")
+    reads = " ".join("%s%s%s" % (r["n"], "+EOF" if r.get("eof") else "", "+FAIL" if r.get("fail") else "") for r in ev.get("reads") or [])
+    def toks(r):
+        if not isinstance(r, dict) or not r.get("ok"):
+            return "error"
+        return " ".join("`%s`@%s:%s:%s" % (bytes(t["text"]).decode("utf-8", "replace"), t["off"], t["line"], t["col"]) for t in r.get("toks") or [])
+    return "tokenize `%s` with reads [%s] => observed %s, specified %s" % (doc.replace("\n", "\\n"), reads, toks(obs), toks(ev.get("exp")))
+
+
+KINDS["scanreplay"] = dict(module=None, describe=describe_scanreplay)
+
+
+SCANNER_MC = ("CONSTANT BufLen = %d\nCONSTANT MaxZero = 1\nCONSTANT Docs <- MCDocs\n")
+
+
+@prop("C18")
+def run_C18(ctx):
+    ctx.rule = ("spec/Scanner.tla transcribes scanner.next / nextToken / tokenText (refill with spill of the partial token, move of the "
+                "unread bytes, sentinel, partial-rune handling, line / column / lastLineLen bookkeeping, token text = spilled head + buffer "
+                "tail) with the io.Reader as environment: every Read returns any 0..min(cap, remaining) bytes, optionally with EOF, or fails "
+                "at any byte position. M1: at BufLen 6 (and 5, 8 thorough) TLC explores EVERY schedule over 13 documents in which words, "
+                "one-character tokens, strings, 2- / 3- / 4-byte characters, blanks and line feeds straddle the buffer end: the emitted "
+                "tokens (text, byte offset, line, column) are always a prefix of the reference tokenization and equal to it at the end, the "
+                "buffer mirrors the document, a failing reader ends in an error, the scanner never gets stuck and terminates. M2: simulated "
+                "behaviours of the same model (document, the exact (n, eof, fail) of every Read, specified tokens or error) are replayed on "
+                "the real tokenizer through the verif hook with a reader that performs exactly those reads. M3 (Trace_Scanner, "
+                "ScannerRef!LexPos = the reference tokenization of Cedar text with positions): documents of 0-5 KB assembled from rendered "
+                "random policies with random layout (CR LF mixes, comments and strings with non-ASCII text, long identifiers, padding that "
+                "moves tokens onto the 1024-byte buffer end), each under 10 (thorough 16) reader schedules -- one byte at a time, small "
+                "random sizes, whole buffers, reads ending around the buffer end, zero-length reads, EOF with the last bytes, faults at "
+                "random byte positions: tokens of the whole slice = reference; every schedule gives the same tokens and the same decoded "
+                "policies / error as the whole slice; a fault gives an error; Policy.Position() and the positions in authorization "
+                "diagnostics = first token of each policy per reference. distinct = distinct documents.")
+    ctx.assumptions = ["the token grammar of the M1/M2 model is reduced (words, '(' and strings); classification of Cedar tokens is specified "
+                       "by ScannerRef!LexPos and checked in M3", "exhaustive exploration is at BufLen 5-8; the 1024-byte machine is reached "
+                       "by replayed and random schedules", "the position of the EOF token is not compared",
+                       "damaged documents are only compared across schedules (same result or same error text as the whole slice)"]
+    q = ctx.quick
+    inv = ["TypeOK", "Mirror", "Consumed", "PrefixOK", "Final", "FailReported", "NoStuck"]
+    for bl in ([6] if q else [5, 6, 8]):
+        vlib.tlc_check(ctx, "m1.buf%d" % bl, "MC_Scanner",
+                       "SPECIFICATION Spec\nVIEW View\n" + SCANNER_MC % bl + "".join("INVARIANT %s\n" % i for i in inv)
+                       + "PROPERTY Terminates\nCHECK_DEADLOCK FALSE\n", ["mc/MC_Scanner.tla"])
+    add_m2(ctx, "scanreplay", "behaviours", "MC_Scanner", ["mc/MC_Scanner.tla"],
+           cfg="INIT Init\nNEXT Next\nINVARIANT Emit\nCHECK_DEADLOCK FALSE\n" + SCANNER_MC % 6, min_cases=500,
+           args=["-simulate", "num=%d" % (4000 if q else 60000), "-depth", "60", "-seed", str(ctx.seed)])
+    add_m3(ctx, "scan", "documents", "scan", 160 if q else 4000, params={"schedules": 10 if q else 16}, shards=(4 if q else vlib.MAX_SHARDS))
+    return vlib.finish(ctx, confirm_all)
+
+
+# ====================================================================== C09 JSON policy codec
+
+vlib.TRACE_PREP["Trace_PolicyJson"] = trace_tables
+vlib.TRACE_CFG["Trace_PolicyJson"] = TEXT_CFG
+
+
+def describe_pjson(ev, obs, entry):
+    o = obs if isinstance(obs, dict) else {}
+    why = "; ".join(entry.get("why") or ["?"])
+    if ev.get("op") == "pjsonset":
+        ids = ", ".join(repr(i.get("id")) for i in ev.get("items") or [])
+        return "policy-set-json ids [%s] => %s%s" % (ids, why, (" (%s)" % (o.get("back") or {}).get("err")) if not (o.get("back") or {}).get("ok", True) else "")
+    subj = o.get("subject") or ev.get("policy")
+    s = "policy-json (%s) %s =>WHY: %s" % (ev.get("via"), pretty.sp(subj), why)
+    for k in ("back", "cross"):
+        r = o.get(k)
+        if isinstance(r, dict) and not r.get("ok", True):
+            s += " [%s: %s]" % (k, r.get("err"))
+        elif isinstance(r, dict) and r.get("policy") and ("%s" % k in why or (k == "back" and "decoded" in why)):
+            s += " [%s: %s]" % (k, pretty.sp(r["policy"])[:400])
+    if "authorize" in why or "outcome" in why:
+        s += " [outcomes %s]" % json.dumps(o.get("az"))
+    return s
+
+
+def shrink_pjson(ev, entry=None):
+    if ev.get("op") != "pjson":
+        return []
+    p = ev.get("policy") or {}
+    conds = p.get("conds") or []
+    if len(conds) <= 1:
+        return []
+    return [dict(ev, policy=dict(p, conds=[c])) for c in conds]
+
+
+KINDS["pjson"] = dict(module="Trace_PolicyJson", shrink=shrink_pjson, describe=describe_pjson)
+
+
+def to_pjson(case):
+    c = dict(case)
+    c["op"] = "pjsonset" if case.get("op") == "marshalset" else "pjson"
+    return c
+
+
+@prop("C09")
+def run_C09(ctx):
+    ctx.rule = ("spec/PolicyJson.tla (over ValueJson, TextForms): FromEst reads a JSON policy document -- handed to TLC in a tagged form "
+                "with strings as code points, integers as limb numbers and object members in document order -- under the documented "
+                "format (scope objects, conditions, one-key expression objects, Value escapes __entity / __extn, like pattern lists, "
+                "unknown key = extension call); SameAst compares policies in a comparison form (annotations and record-literal entries "
+                "by key, a constructor call on a valid literal = the value it denotes, adjacent wildcards collapse). Inputs enumerated by "
+                "TLC: the C07/C08 syntax universe (every parent/child/position triple, value leaves only programs / JSON can build, "
+                "odd attribute names, annotations over the boundary strings, arithmetic groupings), policy sets under every id pattern, "
+                "and the expression universe; each as built from the AST, as reparsed from its text and as decoded from its JSON. The "
+                "harness encodes the subject with the real MarshalJSON, decodes it with the real UnmarshalJSON, re-encodes (bytes must "
+                "repeat), takes the detour JSON -> text -> JSON, and authorizes every variant. Trace_PolicyJson: the specification's "
+                "reading of the RECORDED document must be the subject's AST (catches encoder and decoder wrong in the same way); "
+                "the decoded policy must be SameAst; the detour must equal what the text alone denotes; all variants have the same "
+                "outcome, equal to CedarPolicy!Outcome for random policies under random environments; policy-set JSON preserves ids "
+                "and the policy under every id. distinct = distinct inputs.")
+    ctx.assumptions = ["the JSON policy format in PolicyJson.tla is a transcription of the documented format; one deviation of the code "
+                       "is read as it writes it: `in` with an empty entity list is encoded without an `entities` member",
+                       "ASTs that call functions Cedar does not have are outside the statement's quantifier and skipped",
+                       "names (types, ids, attribute names, keys, function names) are related to their characters by spelling tables "
+                       "computed by harness and checker", "alternative spellings written by other encoders are not generated"]
+    q = ctx.quick
+    add_gen_exec_validate(ctx, "pjson", "syntax", "MC_Syntax", ["mc/MC_Syntax.tla"],
+                          cfg=GEN_CFG + SYNTAX_CONSTS + 'CONSTANT Mode = "marshal"\n', min_cases=5000, timeout=7200, transform=to_pjson)
+    consts = "CONSTANT UseDepth2 = %s\nCONSTANT Stride = %d\n" % ("FALSE" if q else "TRUE", 2 if q else 1)
+    add_gen_exec_validate(ctx, "pjson", "exprs", "MC_MarshalExpr", ["mc/MC_MarshalExpr.tla"], cfg=GEN_CFG + consts,
+                          min_cases=1000, timeout=7200, transform=to_pjson)
+    add_m3(ctx, "pjson", "random", "pjson", 3000 if q else 60000)
+    return vlib.finish(ctx, confirm_all)
